@@ -173,24 +173,42 @@ func cmdCheck(args []string) int {
 	}
 	seed, _ := strconv.Atoi(os.Getenv("VERIF_SEED"))
 	t0 := time.Now()
-	prov := providerOf(id)
+	provs := providersOf(id)
+	prov := provs[0]
 	b, err := ensureBuild(prov.race)
 	if err != nil {
 		fmt.Fprintln(os.Stderr, "verif: build failed:", err)
 		return 3
 	}
-	bin := filepath.Join(b.dir, prov.bin)
+	os.Setenv("VERIF_BUILD_DIR", b.dir)
 	buildS := time.Since(t0).Seconds()
-
-	out, err := exec.Command(bin, "-check", id, "-tier", tier, "-list").Output()
-	if err != nil {
-		fmt.Fprintf(os.Stderr, "verif: %s -list: %v\n", bin, err)
-		return 3
-	}
+	// the instances of all providers form one index space
 	var ls listing
-	if err := json.Unmarshal(out, &ls); err != nil {
-		fmt.Fprintln(os.Stderr, "verif: bad listing:", err)
-		return 3
+	var binOf []string // per instance
+	var localIdx []int
+	for _, pv := range provs {
+		bin := filepath.Join(b.dir, pv.bin)
+		out, err := exec.Command(bin, "-check", id, "-tier", tier, "-list").Output()
+		if err != nil {
+			fmt.Fprintf(os.Stderr, "verif: %s -list: %v\n", bin, err)
+			return 3
+		}
+		var l listing
+		if err := json.Unmarshal(out, &l); err != nil {
+			fmt.Fprintln(os.Stderr, "verif: bad listing:", err)
+			return 3
+		}
+		for i, n := range l.Names {
+			ls.Names = append(ls.Names, n)
+			binOf = append(binOf, bin)
+			localIdx = append(localIdx, i)
+		}
+		ls.N += l.N
+		if ls.Rule != "" {
+			ls.Rule += " || "
+		}
+		ls.Rule += l.Rule
+		ls.Assumptions = append(ls.Assumptions, l.Assumptions...)
 	}
 	deadline := time.Now().Add(time.Duration(budget) * time.Second)
 
@@ -213,76 +231,88 @@ func cmdCheck(args []string) int {
 	results := make([]*vp.InstResult, ls.N)
 	var infra []string
 	var wg sync.WaitGroup
-	for wk := 0; wk < workers; wk++ {
-		wg.Add(1)
-		go func(wk int) {
-			defer wg.Done()
-			for {
-				// (re)start a worker process
-				cmd := exec.Command(bin, "-check", id, "-tier", tier, "-worker", "-deadline", strconv.FormatInt(deadline.Unix(), 10))
-				cmd.Env = append(os.Environ(), "GOMAXPROCS=1", "GORACE=halt_on_error=0 log_path="+filepath.Join(b.dir, "race", fmt.Sprintf("%s-w%d", id, wk)))
-				cmd.Stderr = &prefixWriter{prefix: fmt.Sprintf("[w%d] ", wk)}
-				stdin, _ := cmd.StdinPipe()
-				stdout, _ := cmd.StdoutPipe()
-				if err := cmd.Start(); err != nil {
-					mu.Lock()
-					infra = append(infra, "start worker: "+err.Error())
-					mu.Unlock()
-					return
-				}
-				rd := bufio.NewReaderSize(stdout, 1<<20)
-				died := false
-				for {
-					mu.Lock()
-					if next >= len(order) {
-						mu.Unlock()
-						break
-					}
-					idx := order[next]
-					next++
-					mu.Unlock()
-					fmt.Fprintf(stdin, "%d\n", idx)
-					line, err := rd.ReadBytes('\n')
-					if err != nil {
-						mu.Lock()
-						infra = append(infra, fmt.Sprintf("worker %d died on instance %d (%s)", wk, idx, ls.Names[idx]))
-						mu.Unlock()
-						died = true
-						break
-					}
-					var r vp.InstResult
-					if err := json.Unmarshal(line, &r); err != nil {
-						mu.Lock()
-						infra = append(infra, fmt.Sprintf("worker %d: bad result for instance %d: %v", wk, idx, err))
-						mu.Unlock()
-						continue
-					}
-					mu.Lock()
-					results[idx] = &r
-					mu.Unlock()
-				}
-				stdin.Close()
-				cmd.Wait()
-				if !died {
-					return
-				}
-				mu.Lock()
-				tooMany := len(infra) > 3
-				mu.Unlock()
-				if tooMany {
-					return
-				}
+	for _, pv := range provs {
+		bin := filepath.Join(b.dir, pv.bin)
+		// the jobs of this provider
+		var jobs []int
+		for _, j := range order {
+			if binOf[j] == bin {
+				jobs = append(jobs, j)
 			}
-		}(wk)
+		}
+		next = 0
+		for wk := 0; wk < workers; wk++ {
+			wg.Add(1)
+			go func(wk int) {
+				defer wg.Done()
+				for {
+					// (re)start a worker process
+					cmd := exec.Command(bin, "-check", id, "-tier", tier, "-worker", "-deadline", strconv.FormatInt(deadline.Unix(), 10))
+					cmd.Env = append(os.Environ(), "GOMAXPROCS=1", "GORACE=halt_on_error=0 log_path="+filepath.Join(b.dir, "race", fmt.Sprintf("%s-w%d", id, wk)))
+					cmd.Stderr = &prefixWriter{prefix: fmt.Sprintf("[w%d] ", wk)}
+					stdin, _ := cmd.StdinPipe()
+					stdout, _ := cmd.StdoutPipe()
+					if err := cmd.Start(); err != nil {
+						mu.Lock()
+						infra = append(infra, "start worker: "+err.Error())
+						mu.Unlock()
+						return
+					}
+					rd := bufio.NewReaderSize(stdout, 1<<20)
+					died := false
+					for {
+						mu.Lock()
+						if next >= len(jobs) {
+							mu.Unlock()
+							break
+						}
+						idx := jobs[next]
+						next++
+						mu.Unlock()
+						fmt.Fprintf(stdin, "%d\n", localIdx[idx])
+						line, err := rd.ReadBytes('\n')
+						if err != nil {
+							mu.Lock()
+							infra = append(infra, fmt.Sprintf("worker %d died on instance %d (%s)", wk, idx, ls.Names[idx]))
+							mu.Unlock()
+							died = true
+							break
+						}
+						var r vp.InstResult
+						if err := json.Unmarshal(line, &r); err != nil {
+							mu.Lock()
+							infra = append(infra, fmt.Sprintf("worker %d: bad result for instance %d: %v", wk, idx, err))
+							mu.Unlock()
+							continue
+						}
+						r.Index = idx
+						mu.Lock()
+						results[idx] = &r
+						mu.Unlock()
+					}
+					stdin.Close()
+					cmd.Wait()
+					if !died {
+						return
+					}
+					mu.Lock()
+					tooMany := len(infra) > 3
+					mu.Unlock()
+					if tooMany {
+						return
+					}
+				}
+			}(wk)
+		}
+		wg.Wait()
 	}
-	wg.Wait()
 
 	// aggregate
 	type agg struct {
 		execs, steps, states, points, caps, pruned, skipped, incomplete, violExecs int
-		maxAlts, maxThreads                                                       int
-		minBound, maxBound                                                        int
-		instances                                                                 int
+		maxAlts, maxThreads                                                        int
+		minBound, maxBound                                                         int
+		instances                                                                  int
 	}
 	a := agg{minBound: 99}
 	distinct := map[string]bool{}
@@ -392,7 +422,7 @@ func cmdCheck(args []string) int {
 		// confirm by replaying the recorded schedule (twice, identical logs) before reporting
 		bs, _ := json.MarshalIndent(rp, "", " ")
 		os.WriteFile(path, bs, 0o644)
-		rc, rout := runReplay(bin, path)
+		rc, rout := runReplay(binOf[h.inst.Index], path)
 		status := "confirmed by replay"
 		if rc == 3 {
 			infra = append(infra, fmt.Sprintf("replay of %s did not run deterministically: %s", path, lastLines(rout, 3)))
@@ -501,14 +531,22 @@ func cmdReplay(path string) int {
 		fmt.Fprintln(os.Stderr, err)
 		return 3
 	}
-	prov := providerOf(rp.Check)
-	bd, err := ensureBuild(prov.race)
+	provs := providersOf(rp.Check)
+	bd, err := ensureBuild(provs[0].race)
 	if err != nil {
 		fmt.Fprintln(os.Stderr, "verif: build failed:", err)
 		return 3
 	}
-	rc, out := runReplay(filepath.Join(bd.dir, prov.bin), path)
-	fmt.Print(out)
+	os.Setenv("VERIF_BUILD_DIR", bd.dir)
+	rc := 3
+	for _, pv := range provs {
+		var out string
+		rc, out = runReplay(filepath.Join(bd.dir, pv.bin), path)
+		if rc != 3 {
+			fmt.Print(out)
+			return rc
+		}
+	}
 	return rc
 }
 
@@ -537,10 +575,14 @@ type provider struct {
 	level string
 }
 
-func providerOf(id string) provider {
+func providersOf(id string) []provider {
 	switch id {
 	case "C15":
-		return provider{bin: "harness-race", race: true, level: "model_checking"}
+		return []provider{{bin: "harness-race", race: true, level: "model_checking"}}
+	case "C16":
+		return []provider{{bin: "gencheck", level: "model_checking"}}
+	case "C17":
+		return []provider{{bin: "gencheck", level: "model_checking"}, {bin: "harness", level: "model_checking"}}
 	}
-	return provider{bin: "harness", level: "model_checking"}
+	return []provider{{bin: "harness", level: "model_checking"}}
 }
